@@ -13,7 +13,8 @@ def keyOptsOf (l : Line) : List Sess.KeyOpt :=
 /-- the provider as the REGENERATED `NewProvider` wiring builds it from the storage-backed key set and the options of the line -/
 def enderOf (l : Line) (termOK : String → String → Bool) : SessionEnder :=
   Sess.constructedEnder 0 (str l "issuer") (parseKeySet l "ks.") (keyOptsOf l) []
-    { clients := parseClients l, termOK := termOK, is_CanTerminateSessionFromRequest := bool l "termfromreq" } (str l "default")
+    { clients := parseClients l, termOK := termOK, lookupOK := fun _ => !bool l "lookupfail",
+      is_CanTerminateSessionFromRequest := bool l "termfromreq" } (str l "default")
 
 def modelReq (l : Line) : Go.R EndSessionReq :=
   if bool l "formerr" then .error "form" else
